@@ -57,7 +57,7 @@ func (f fault) String() string {
 type pcfg struct {
 	n, t     int
 	fast     bool
-	reshare  string // "", "same", "replace-one", "grow", "shrink", "new-threshold"
+	reshare  string // "", "same", "permute", "replace-one", "grow", "shrink", "new-threshold"
 	fault    fault
 	permNode int // honest node whose input order is permuted (-1: none)
 	permPh   int // 0 deals, 1 responses, 2 justifications
@@ -228,6 +228,11 @@ func runPedersen(p pcfg, old *outcome) *outcome {
 		case "same", "new-threshold":
 			for i := 0; i < no; i++ {
 				members = append(members, member{old.nodes[i].long, old.nodes[i].pub, i})
+			}
+		case "permute": // the same members, listed in another order: new index != old index for everybody
+			for i := 0; i < no; i++ {
+				o := (i + 1) % no
+				members = append(members, member{old.nodes[o].long, old.nodes[o].pub, o})
 			}
 		case "replace-one": // the last old node leaves, a newcomer takes a new index
 			for i := 0; i < no-1; i++ {
